@@ -6,7 +6,7 @@ from oracle_util import *  # noqa
 from protocol import from_real, pm
 
 ID = "C12"
-LEAN_MODULE = ["SCoda.Props.C13", "SCoda.Props.C12", "SCoda.Props.C12b", "SCoda.Props.C13b", "SCoda.Props.ViewTie"]
+LEAN_MODULE = ["SCoda.Props.C13", "SCoda.Props.C12", "SCoda.Props.C12b", "SCoda.Props.C13b", "SCoda.Props.ViewTie", "SCoda.Props.StaticTie"]
 CLAUSES = [
     ("one sequence per saved sequence, in the same order", ["SCoda.C13.one_per_group"]),
     ("save: summing the delta times of the written track puts every emitted event back on its original tick, in order, with pitch and velocity kept "
@@ -24,6 +24,9 @@ CLAUSES = [
     ("TIE BY TRANSLATION (save side): RelativeSequence.to_midi_track and MidiTrack.to_mido_track (the delta buffer across waits and non-emitting messages) as "
      "re-translated from the source on every run equal the model toMido, up to the fields a mido message does not carry",
      ["SCoda.ViewTie.toMidoTrack_eq", "SCoda.ViewTie.toMidi_toMido_eq", "SCoda.ViewTie.toMidiTrack_eq", "SCoda.ViewTie.parseInternalMessage_eq"]),
+    ("TIE BY TRANSLATION (both halves): Sequence.sequences_save / to_midi_track and Sequence.sequences_load / MidiFile.convert as re-translated from the source equal the "
+     "models (mido's file codec is the one remaining assumption)",
+     ["SCoda.StaticTie.sequencesSave_eq", "SCoda.StaticTie.toMidiTrack_eq", "SCoda.StaticTie.sequencesLoad_path_eq", "SCoda.StaticTie.convert_eq"]),
     ("NOTES, not only sounding sets (audit A8): the notes (pitch, onset, duration, velocity) of loaded sequence i are a permutation of the notes of saved sequence i with "
      "the channel set to 0, for single-channel sequences with notes of positive length; dropping those two hypotheses is refuted (cross-channel same pitch: known finding "
      "D21; a zero-length note swallows the next note of its pitch: D17's mechanism, booked for C12 as D17b); the round trip always succeeds for a non-empty list and raises "
@@ -181,6 +184,9 @@ def generate(ctx):
                 else:
                     extras.append(pm(KEYSIG, 0, t, key=rng.randrange(15)))
             a = G.notes_to_abs(notes, extras, cap=None)
+            if rng.random() < 0.3:
+                a = G.shuffle_ties(rng, a)       # entered in another order (notes first, signatures later): same-tick messages not in canonical order
+                ctx.count("abs:ties-shuffled")
             r_ = G.abs_to_rel(a)
             if rng.random() < 0.3:
                 r_ = G.unconsolidate(rng, r_)
